@@ -181,8 +181,9 @@ func readDumpVars(path string, only map[string]bool, f func(map[string]TVal)) er
 	for sc.Scan() {
 		line := sc.Text()
 		switch {
-		case strings.HasPrefix(line, "State "):
+		case strings.HasPrefix(line, "State "), strings.HasPrefix(line, "STATE_"):
 			flush()
+		case strings.HasPrefix(line, "\\*"), strings.HasPrefix(line, "----"), strings.HasPrefix(line, "===="):
 		case strings.HasPrefix(line, "/\\ "):
 			j := strings.Index(line, " = ")
 			last = strings.TrimSpace(line[3:j])
